@@ -11,6 +11,7 @@ ids are consistent (`SharedConsistent`, which C03 proves of resolve's trees).
 -/
 import PubgrubProofs.ReportSound
 import PubgrubProofs.TreeLink
+import PubgrubProofs.RangeAnyOrder2
 
 namespace Pubgrub.C08
 open Pubgrub
@@ -74,5 +75,21 @@ theorem C08_on_resolve_trees {Pr E : Type} [DecidableEq V] [LE Pr] [DecidableLE 
       ∀ i l, lines[i]? = some l → ∀ c, l.step.conclusion = some c →
         Entails (fun _ _ => True) (stepPremises lines i l.step) c :=
   noSolution_report_sound W hW debug fuel root rv s tree h
+
+/-! ### `Range V` over ANY linear order (second batch of pull-backs, RangeAnyOrder2) -/
+section AnyOrder2
+variable {P V M Pr E : Type} [DecidableEq P] [LinearOrder V] [LE Pr] [DecidableLE Pr]
+
+theorem C08_range_on_resolve_trees
+    (W : World P (Range V) V M) (hW : W.RangesWF) (debug : Bool) (fuel : Nat)
+    (root : P) (rv : V) (s : SolverState P (Range V) V M Pr) (tree : DerivationTree P (Range V) V M)
+    (h : Reachable (E := E) W debug fuel root rv (s, .noSolution tree)) :
+    (∃ r, reportSteps tree = .ok r) ∧
+    ∀ lines, reportSteps tree = .ok (.inr lines) →
+      ∀ i l, lines[i]? = some l → ∀ c, l.step.conclusion = some c →
+        Entails (fun _ _ => True) (stepPremises lines i l.step) c :=
+  by apply range_C08_on_resolve_trees (P := P) (V := V) (M := M) (Pr := Pr) (E := E) <;> assumption
+
+end AnyOrder2
 
 end Pubgrub.C08
